@@ -91,6 +91,11 @@ CHECKS = {
             'Every history is an implementation run; any dependence of bytes or probe values on earlier builds, evaluations or writes, on set iteration order or on the hash seed is a difference from the fresh-process reference.',
             'Seams are harness-side patches (mc/seams.py). Bounded: 8 models, depth <= 5; sets built outside the four seam modules are covered by the hash-seed runs only. Known finding F03 (xlsx time stamps) is listed in known_findings.json.',
             'DESIGN.md 4/C12'),
+    'C15': (E1, 'exploration',
+            'exhaustive enumeration on the real code of every subset of liftable literals of 5 base models x variable-naming styles (neutral, names of [Tabulation] keys set / not set by the file, names of keys of other sections) x unused extra variables x direct / nested placeholders (${NAME} through another variable, ${SECTION:KEY} whose target holds a placeholder); relational oracle against the literally substituted file',
+            'Every templated file and its hand-substituted twin are parsed and tabulated by the same implementation (ConfigParser lists, output bytes, potable); any leak of a variable into another section or failure to resolve a placeholder shows as a difference.',
+            'A variable is never named like a key of a section in which it is used (configparser resolves ${NAME} in the current section first; the statement speaks of keys of OTHER sections).',
+            'DESIGN.md 4/C15'),
 }
 
 NOT_YET = 'check not built yet in this revision of /verif (bounded exhaustive exploration applies; see DESIGN.md section 4)'
